@@ -218,6 +218,12 @@ func (r *Run) verifAPI(fn *ssa.Function, args []Value) (Value, bool) {
 	case "verifMonitor":
 		r.setMonitor(args[0].(*Term).Val != 0)
 		return Tuple{}, true
+	case "verifAnd":
+		return ts.And(args[0].(*Term), args[1].(*Term)), true
+	case "verifOr":
+		return ts.Or(args[0].(*Term), args[1].(*Term)), true
+	case "verifIteI64":
+		return ts.Ite(args[0].(*Term), args[1].(*Term), args[2].(*Term)), true
 	case "verifThorough":
 		return ts.BoolConst(thoroughTier), true
 	case "verifSymbolic":
